@@ -40,7 +40,8 @@ var c02Readers = []string{"layers", "string", "dump", "verify", "flows", "gostri
 
 func c02Built(rng *rand.Rand) []byte {
 	// a checksummed stack so that VerifyChecksums runs its full path
-	pl := make([]byte, rng.Intn(60))
+	// payload lengths: empty (bare ACK / header-only datagrams) and tiny ones are as frequent as ordinary ones
+	pl := make([]byte, []int{0, 0, 0, 1, 2, 3, rng.Intn(60), rng.Intn(60), 100 + rng.Intn(1300)}[rng.Intn(9)])
 	rng.Read(pl)
 	eth := &layers.Ethernet{SrcMAC: net.HardwareAddr{2, 0, 0, 0, 0, 1}, DstMAC: net.HardwareAddr{2, 0, 0, 0, 0, 2}}
 	var nl gopacket.NetworkLayer
@@ -132,7 +133,11 @@ func (c02) Gen(rng *rand.Rand, tier string) []Case {
 			case r < 4:
 				ops = append(ops, fmt.Sprintf("dec:%d,%d", p, rng.Intn(16)))
 			case r < 8:
-				ops = append(ops, fmt.Sprintf("read:%d,%s", p, c02Readers[rng.Intn(len(c02Readers))]))
+				rd := c02Readers[rng.Intn(len(c02Readers))]
+				if rng.Intn(3) == 0 {
+					rd = "verify"
+				}
+				ops = append(ops, fmt.Sprintf("read:%d,%s", p, rd))
 			case r < 9:
 				ops = append(ops, fmt.Sprintf("traffic:%d", 1+rng.Intn(20)))
 			default:
